@@ -243,10 +243,8 @@ theorem tbl_bool : leafCanStructure .bool = true ∧ leafHasUnstructureHook .boo
 theorem tbl_bytes : leafCanStructure .bytes = true ∧ leafHasUnstructureHook .bytes = true := by decide
 theorem tbl_datetime : leafCanStructure .datetime = true ∧ leafHasUnstructureHook .datetime = true := by decide
 theorem tbl_date : leafCanStructure .date = true ∧ leafHasUnstructureHook .date = true := by decide
-theorem tbl_uuid : leafCanStructure .uuid = false ∧ leafHasUnstructureHook .uuid = false
-    ∧ cattrsBuiltinLeaves.contains .uuid = false := by decide
-theorem tbl_time : leafCanStructure .time = false ∧ leafHasUnstructureHook .time = false
-    ∧ cattrsBuiltinLeaves.contains .time = false := by decide
+theorem tbl_time : leafCanStructure .time = true ∧ leafHasUnstructureHook .time = true := by decide
+theorem tbl_uuid : leafCanStructure .uuid = true ∧ leafHasUnstructureHook .uuid = true := by decide
 
 end Pog
 
@@ -347,7 +345,7 @@ theorem roundtrip_leaf (c : Codecs) (reg : List Str) (decls : Decls) (n : Nat) (
     | none => simp [hd] at hconf
     | some v =>
       simp [hd] at hconf
-      simp [structF, resolvable, hcan, structLeaf, hd, unstrF, unstrLeaf, tbl_datetime.2, hconf, normaliseF]
+      simp [structF, resolvable, hcan, structLeaf, hd, unstrF, unstrLeaf, unstrIso, tbl_datetime.2, hconf, normaliseF]
   | date =>
     cases j <;> simp [leafConforms] at hconf
     rename_i s
@@ -356,9 +354,25 @@ theorem roundtrip_leaf (c : Codecs) (reg : List Str) (decls : Decls) (n : Nat) (
     | none => simp [hd] at hconf
     | some v =>
       simp [hd] at hconf
-      simp [structF, resolvable, hcan, structLeaf, hd, unstrF, unstrLeaf, tbl_date.2, hconf, normaliseF]
-  | uuid => simp [tbl_uuid] at hcan
-  | time => simp [tbl_time] at hcan
+      simp [structF, resolvable, hcan, structLeaf, hd, unstrF, unstrLeaf, unstrIso, tbl_date.2, hconf, normaliseF]
+  | time =>
+    cases j <;> simp [leafConforms] at hconf
+    rename_i s
+    simp only [LeafCodec.canon] at hconf
+    cases hd : c.time.decode s with
+    | none => simp [hd] at hconf
+    | some v =>
+      simp [hd] at hconf
+      simp [structF, resolvable, hcan, structLeaf, hd, unstrF, unstrLeaf, unstrIso, tbl_time.2, hconf, normaliseF]
+  | uuid =>
+    cases j <;> simp [leafConforms] at hconf
+    rename_i s
+    simp only [LeafCodec.canon] at hconf
+    cases hd : c.uuid.decode s with
+    | none => simp [hd] at hconf
+    | some v =>
+      simp [hd] at hconf
+      simp [structF, resolvable, hcan, structLeaf, hd, unstrF, unstrLeaf, tbl_uuid.2, hconf, normaliseF]
 
 end Pog
 
